@@ -509,7 +509,10 @@ def r6_bookkeeping(ctx):
         for d in astx.calls_in(f.node, "difference"):
             if isinstance(d.func, ast.Attribute) and "candidates" in astx.u(d.func.value) and d.args:
                 a0 = d.args[0]
-                a0 = _singleton_pick_base(prog, f, elect.flatten_base(a0, f.node) if isinstance(a0, (ast.List, ast.Tuple, ast.Set)) else a0)
+                # [c] with c the single member of the recorded group is that group; a bare name c is NOT: set.difference(c)
+                # would iterate over the characters of the candidate's name
+                if isinstance(a0, (ast.List, ast.Tuple, ast.Set)):
+                    a0 = _singleton_pick_base(prog, f, elect.flatten_base(a0, f.node))
                 k = N.key(elect.flatten_base(a0, f.node))
                 ctx.check(k in recorded, f, d, "remaining candidate tuple = previous candidates minus the recorded group",
                           f"difference({k})", f"candidates removed from the tuple (`{k}`) are not the recorded group {sorted(recorded)}")
@@ -634,6 +637,11 @@ def r7_plurality_veto_shape(ctx):
 
 
 # --------------------------------------------------------------------------------------------- R8
+def _c12_wrap(sub):
+    from rules import c12
+    return c12.r1_filter_polarity(sub)
+
+
 def r8_prerequisites(ctx):
     """Facts the clauses above rest on, decided by the rules that own them and re-stated here:
     F2 (tiebreak_set returns a strict order of singletons: random fallback behind the still-tied test),
@@ -645,7 +653,10 @@ def r8_prerequisites(ctx):
              (c09.r7_no_shared_mutable_state, lambda o: o.status != "DISCHARGED" or "mutate" in o.construct),
              (c10.r2_only_in_tie, lambda o: True),
              # at most m candidates reach the quota only while no vote is created: each winner's own pile through the transfer rule once
-             (c02.r8_transfer_wiring, lambda o: "transfer" in o.construct or "carried over" in o.construct),
+             (c02.r8_transfer_wiring, lambda o: "transfer" in o.construct or "carried over" in o.construct or "carried-over" in o.construct),
+             # eliminations and dictator elections remove ONE candidate by name: a name that is not wrapped before the membership
+             # tests strikes every candidate whose name it contains, and the next tally raises KeyError out of the constructor
+             (_c12_wrap, lambda o: "wrapped into a list" in o.construct),
              (c13.r3_alaska, lambda o: "get_profile" in o.construct or "stage 1" in o.construct or "STV" in o.construct)]
     n = 0
     for fn, keep in picks:
